@@ -1,4 +1,5 @@
 """C10 MTBDD arithmetic — terminal/base cases of every operator (E-TABLE) ..."""
+import ecache
 import ewrap
 import kinds
 import tables
@@ -18,4 +19,9 @@ def run(ctx):
     ctx.explain("E-WRAP: the PseudoBooleanFunction impl methods add/sub/mul/div/min/max/ite/restrict_edge reach "
                 "apply_bin with the operator tag and operand order they are named for.")
     kinds.wrappers(ctx, F, "mtbdd", [kinds.PBF], 8)
+    ctx.explain("E-CACHE: in this kind's algorithm functions the apply-cache key of every insertion equals the key "
+                "of the lookup, the memoised value is the returned value, hit and miss paths agree, tags are disjoint.")
+    n = ecache.run(ctx, F, crates=("oxidd_rules_mtbdd::",))
+    ctx.floor("E-CACHE", "cache-using algorithm functions", n, 3)
+    ecache.check_hit_equals_miss(ctx, F, crates=("oxidd_rules_mtbdd::",))
     ctx.not_decided = "the recursive step, non-overflow arithmetic of the terminal types, Div rounding, float behaviour"
